@@ -55,6 +55,18 @@ func c17Pinned(name string) c17Case {
 			{"array_to_append": map[string]any{"by_name": "L.items"}},
 			{"struct_fields_as_options": map[string]any{"by_name": "L.items"}},
 		}
+	case "add-assignment-array-to-append":
+		arr := map[string]any{"kind": "array", "array": map[string]any{"value_type": yamlScalar("string")}}
+		f.Options = []map[string]any{
+			{"add_assignment": map[string]any{"by_name": "S.tags", "assignment": map[string]any{"path": "tags", "method": "append",
+				"value": map[string]any{"argument": map[string]any{"name": "tags", "type": arr}}}}},
+			{"array_to_append": map[string]any{"by_name": "S.tags"}},
+		}
+	case "map-index-promote":
+		f.Options = []map[string]any{{"map_to_index": map[string]any{"by_name": "S.flags"}}}
+		g := vFile{Language: "go", Package: "p", Builders: []map[string]any{{"promote_options_to_constructor": map[string]any{"by_object": "S", "options": []string{"flags"}}}}}
+		cs.files = []vFile{f, g}
+		return cs
 	case "compose-then-initialize":
 		// the composed builder starts from a by-value copy of the source builder's Constructor: both
 		// slices share one backing array with spare capacity (3 constants appended one by one: cap 4)
@@ -79,4 +91,4 @@ func c17Pinned(name string) c17Case {
 	return cs
 }
 
-var c17PinnedNames = []string{"dup-option-default", "dup-builder-default", "dismissed", "rename-args-constraint", "promote-array-to-append", "merge-rename-arguments", "map-index-unfold", "sf-opts-after-append"}
+var c17PinnedNames = []string{"dup-option-default", "dup-builder-default", "dismissed", "rename-args-constraint", "promote-array-to-append", "merge-rename-arguments", "map-index-unfold", "sf-opts-after-append", "add-assignment-array-to-append", "map-index-promote"}
